@@ -195,12 +195,128 @@ Ltac addf4 := addf3; repeat match goal with
   | H : context [set_slot ?r ?i ?s] |- _ => note (set_slot_st r i s)
   end.
 
-Lemma handle_tp_st r pgn src dst len buf : rstatic r (snd (fst (fst (handle_tp r pgn src dst len buf)))).
-Proof.
-  unfold handle_tp. cbv zeta.
-  brk; cbn [fst snd]; fwall4; addf4;
+Definition htp_rts (r:rnode) (src dst:Z) (buf:list Z) : bool * rnode * list event * Z :=
+  let mx := nslots r in
+  let idev := find_source_device r dst in
+    let ctrl := byte buf 0 in
+    let tpgn := le3 buf 5 in
+      let nbytes := byte buf 1 + 256 * byte buf 2 in
+      let maxp := byte buf 3 in
+      let '(slots1, idx) := find_free_slot r tpgn src dst true in
+      let r1 := with_slots r slots1 in
+      if idx =? mx then
+        if (ctrl =? c_TP_CM_RTS) && (idev >=? 0) then let '(r2, ev) := send_tpcm_abort r1 tpgn src idev c_TP_CM_AbortBusy in (true, r2, ev, mx)
+        else (true, r1, [], mx)
+      else
+        let '(known, sys, _) := check_known (n_pgn (rn r1)) tpgn in
+        let r1 := chk_slot r1 idx in
+        let s0 := get_slot r1 idx in
+        let s1 := {| s_free := s_free s0; s_ready := s_ready s0; s_known := known; s_system := sys; s_pri := s_pri s0; s_pgn := s_pgn s0; s_src := s_src s0;
+                     s_dst := s_dst s0; s_tp := s_tp s0; s_len := s_len s0; s_data := s_data s0; s_last := s_last s0; s_time := s_time s0;
+                     s_tpmax := s_tpmax s0; s_tpreq := s_tpreq s0 |} in
+        if (nbytes <=? c_MaxDataLen) && (known || negb (c_only_known (r_cfg r1))) then
+          let answer := (ctrl =? c_TP_CM_RTS) && (idev >=? 0) in
+          let s2 := {| s_free := false; s_ready := s_ready s1; s_known := known; s_system := sys; s_pri := 7; s_pgn := tpgn; s_src := src; s_dst := dst;
+                       s_tp := true; s_len := nbytes; s_data := []; s_last := 0; s_time := now32 r1;
+                       s_tpmax := (if answer then maxp else 255); s_tpreq := (if answer then tp_cts_packets maxp else s_tpreq s1) |} in
+          let r2 := set_slot r1 idx s2 in
+          if answer then let '(r3, ev) := send_tpcm_cts r2 tpgn src idev maxp 1 in (true, r3, ev, mx) else (true, r2, [], mx)
+        else
+          let r2 := set_slot r1 idx s1 in
+          if (ctrl =? c_TP_CM_RTS) && (idev >=? 0) then let '(r3, ev) := send_tpcm_abort r2 tpgn src idev c_TP_CM_AbortBusy in (true, r3, ev, mx)
+          else (true, r2, [], mx).
+
+Definition htp_cts (r:rnode) (dst:Z) (buf:list Z) : bool * rnode * list event * Z :=
+  let mx := nslots r in
+  let idev := find_source_device r dst in
+    let tpgn := le3 buf 5 in
+      if negb ((0 <=? idev) && (idev <? dev_count (rn r))) then (true, r, [], mx) else
+      let d := get_dev (rn r) idev in
+      match d_tp_msg d with
+      | None => (true, r, [], mx)
+      | Some pm =>
+        if m_dst pm =? 255 then (true, r, [], mx) else
+        if negb (m_pgn pm =? tpgn) then (true, end_send_tp_r r idev, [], mx) else
+        if byte buf 1 >? 0 then
+          if negb (byte buf 2 - 1 =? d_next_dt_seq d) then (true, end_send_tp_r r idev, [], mx) else
+          let '(r1, ev, ok) := send_tpdt_burst (Z.to_nat (byte buf 1)) r idev in
+          let r2 := if ok then r1 else end_send_tp_r r1 idev in
+          let d2 := get_dev (rn r2) idev in
+          (true, set_dev_tp r2 idev (d_tp_msg d2) (sched_from_now (w64 r2) (now r2) 100) (d_next_dt_seq d2), ev, mx)
+        else
+          (true, set_dev_tp r idev (d_tp_msg d) (sched_from_now (w64 r) (now r) 100) (d_next_dt_seq d), [], mx)
+      end.
+
+Definition htp_ack (r:rnode) (dst:Z) : bool * rnode * list event * Z :=
+  let mx := nslots r in
+  let idev := find_source_device r dst in
+      if negb ((0 <=? idev) && (idev <? dev_count (rn r))) then (true, r, [], mx) else
+      let d := get_dev (rn r) idev in
+      match d_tp_msg d with
+      | Some pm => if m_dst pm =? 255 then (true, r, [], mx) else (true, end_send_tp_r r idev, [], mx)
+      | None => (true, r, [], mx)
+      end.
+
+Definition htp_dt (r:rnode) (src dst len:Z) (buf:list Z) : bool * rnode * list event * Z :=
+  let mx := nslots r in
+  let idev := find_source_device r dst in
+    let idx := find_tp_slot (r_slots r) src dst 0 in
+    if idx <? mx then
+      let r := chk_slot r idx in
+      let s := get_slot r idx in
+      if s_last s + 1 =? byte buf 0 then
+        let data' := copy_buf (s_data s) 1 len buf in
+        let s1 := {| s_free := false; s_ready := s_ready s; s_known := s_known s; s_system := s_system s; s_pri := s_pri s; s_pgn := s_pgn s; s_src := s_src s;
+                     s_dst := s_dst s; s_tp := true; s_len := s_len s; s_data := data'; s_last := byte buf 0; s_time := now32 r;
+                     s_tpmax := s_tpmax s; s_tpreq := s_tpreq s |} in
+        if Z.of_nat (length data') >=? s_len s then
+          let s2 := {| s_free := false; s_ready := true; s_known := s_known s1; s_system := s_system s1; s_pri := s_pri s1; s_pgn := s_pgn s1; s_src := s_src s1;
+                       s_dst := s_dst s1; s_tp := true; s_len := s_len s1; s_data := data'; s_last := s_last s1; s_time := s_time s1;
+                       s_tpmax := s_tpmax s1; s_tpreq := s_tpreq s1 |} in
+          let r1 := set_slot r idx s2 in
+          if (s_tpreq s2 >? 0) && (idev >=? 0) then
+            let '(r2, ev) := send_tpcm_endack r1 (s_pgn s2) src idev (s_len s2) (s_last s2) in (true, r2, ev, idx)
+          else (true, r1, [], idx)
+        else
+          let r1 := set_slot r idx s1 in
+          if (s_tpreq s1 >? 0) && (idev >=? 0) && ((s_last s1) mod (s_tpreq s1) =? 0) then
+            let '(r2, ev) := send_tpcm_cts r1 (s_pgn s1) src idev (s_tpmax s1) (s_last s1 + 1) in (true, r2, ev, if s_ready s1 then idx else mx)
+          else (true, r1, [], if s_ready s1 then idx else mx)
+      else
+        let '(r1, ev) := if (s_tpreq s >? 0) && (idev >=? 0) then send_tpcm_abort r (s_pgn s) src idev c_TP_CM_AbortTimeout else (r, []) in
+        (true, set_slot r1 idx (free_slot (get_slot r1 idx)), ev, mx)
+    else (true, r, [], mx).
+
+Lemma handle_tp_split r pgn src dst len buf :
+  handle_tp r pgn src dst len buf =
+  if pgn =? c_TP_CM then
+    let ctrl := byte buf 0 in
+    if (ctrl =? c_TP_CM_BAM) || (ctrl =? c_TP_CM_RTS) then htp_rts r src dst buf
+    else if ctrl =? c_TP_CM_CTS then htp_cts r dst buf
+    else if (ctrl =? c_TP_CM_ACK) || (ctrl =? c_TP_CM_Abort) then htp_ack r dst
+    else (true, r, [], nslots r)
+  else if pgn =? c_TP_DT then htp_dt r src dst len buf
+  else (false, r, [], nslots r).
+Proof. reflexivity. Qed.
+
+
+Ltac htp_fin := cbv zeta; brk; cbn [fst snd]; fwall4; addf4;
     try (match goal with H : find_free_slot ?a ?b ?c ?d ?e = _ |- _ => pose proof (find_free_slot_len a b c d e) as K; rewrite H in K; cbn [fst] in K end);
     fin.
+Lemma htp_rts_st r src dst buf : rstatic r (snd (fst (fst (htp_rts r src dst buf)))).
+Proof. unfold htp_rts. htp_fin. Qed.
+Lemma htp_cts_st r dst buf : rstatic r (snd (fst (fst (htp_cts r dst buf)))).
+Proof. unfold htp_cts. htp_fin. Qed.
+Lemma htp_ack_st r dst : rstatic r (snd (fst (fst (htp_ack r dst)))).
+Proof. unfold htp_ack. htp_fin. Qed.
+Lemma htp_dt_st r src dst len buf : rstatic r (snd (fst (fst (htp_dt r src dst len buf)))).
+Proof. unfold htp_dt. htp_fin. Qed.
+Lemma handle_tp_st r pgn src dst len buf : rstatic r (snd (fst (fst (handle_tp r pgn src dst len buf)))).
+Proof.
+  rewrite handle_tp_split. cbv zeta.
+  destruct (pgn =? c_TP_CM).
+  - destruct (_ || _); [apply htp_rts_st|]. destruct (_ =? c_TP_CM_CTS); [apply htp_cts_st|]. destruct (_ || _); [apply htp_ack_st|apply rstatic_refl].
+  - destruct (pgn =? c_TP_DT); [apply htp_dt_st|apply rstatic_refl].
 Qed.
 Lemma handle_tp_st' r pgn src dst len buf h r' ev idx : handle_tp r pgn src dst len buf = (h, r', ev, idx) -> rstatic r r'.
 Proof. intros E. pose proof (handle_tp_st r pgn src dst len buf) as H. rewrite E in H. exact H. Qed.
